@@ -255,6 +255,28 @@ def partition_rule(ctx, P, rs, RULE):
                 continue
             fi_loc = sl[0]["loc"]
             key = f"{run.label}: row blocks"
+            # a block size capped by a constant (`min(k, 256)`): beyond that many rows the blocks are smaller than k — more sweeps than ceil(m / k)
+            from ..poly import Poly as _Poly
+
+            capped = None
+            todo_ = [str(sy) for e in sl for pl in (e.get("lo_poly"), e.get("hi_poly")) if pl is not None for sy in pl.symbols()] + [str(sy) for e in rng for pl in (e.get("stop_poly"),) if pl is not None for sy in pl.symbols()]
+            seen_ = set()
+            while todo_:
+                sy = todo_.pop()
+                if sy in seen_:
+                    continue
+                seen_.add(sy)
+                d_ = P.ops.sym_defs.get(sy)
+                if d_:
+                    consts = [pl.const_value() for pl in d_[1:] if isinstance(pl, _Poly) and pl.const_value() is not None]
+                    others = [pl for pl in d_[1:] if isinstance(pl, _Poly) and pl.const_value() is None]
+                    if d_[0] == "min" and consts and others and any("k" in {str(x) for x in pl.symbols()} or "m" in {str(x) for x in pl.symbols()} for pl in others):
+                        capped = int(consts[0])
+                    todo_ += [str(x) for pl in d_[1:] if isinstance(pl, _Poly) for x in pl.symbols()]
+            if capped is not None and capped > 1:
+                ctx.violated(RULE, key, f"the block size is min(chunk size, {capped}): with more than {capped} rows and parallel_chunk_size None or > {capped} the rows are differentiated in blocks of "
+                             f"{capped} — more sweeps than ceil(rows / k)", fi_loc)
+                continue
             ivars = {e["var"]: e for e in rng}
             loop_sl, last_sl = [], []
             seen = set()
